@@ -10,6 +10,7 @@ import (
 	"net"
 	"os"
 	"sync"
+	"sync/atomic"
 	"time"
 )
 
@@ -28,6 +29,7 @@ type half struct {
 	blackout bool // writes are accepted and dropped
 	latency  time.Duration
 	total    int64 // bytes accepted from the writer so far
+	consumed int64 // bytes the reader has actually taken (a reset discards what was delivered but not yet read)
 	cutAt    int64 // if >=0: when total reaches cutAt, the whole conn is reset
 	onCut    func()
 	record   *[]byte
@@ -170,6 +172,7 @@ func (h *half) read(p []byte) (int, error) {
 		if len(h.buf) > 0 {
 			n := copy(p, h.buf)
 			h.buf = h.buf[n:]
+			h.consumed += int64(n)
 			return n, nil
 		}
 		if h.wclosed {
@@ -239,14 +242,38 @@ type Link struct {
 	RecS2C   []byte
 	Client   *Conn
 	Server   *Conn
+	cutFired atomic.Bool
 }
 
-func (l *Link) Cut()                          { l.C2S.doReset(); l.S2C.doReset() }
-func (l *Link) Blackhole(c2s, s2c bool)       { setBH(l.C2S, c2s); setBH(l.S2C, s2c) }
-func (l *Link) SetLatency(d time.Duration)    { setLat(l.C2S, d); setLat(l.S2C, d) }
-func (l *Link) CutAfter(c2s bool, n int64)    { h := l.S2C; if c2s { h = l.C2S }; h.mu.Lock(); h.cutAt = n; h.onCut = l.Cut; h.mu.Unlock() }
-func setBH(h *half, v bool)                   { h.mu.Lock(); h.blackout = v; h.mu.Unlock() }
-func setLat(h *half, d time.Duration)         { h.mu.Lock(); h.latency = d; h.mu.Unlock() }
+func (l *Link) Cut()                       { l.cutFired.Store(true); l.C2S.doReset(); l.S2C.doReset() }
+func (l *Link) Blackhole(c2s, s2c bool)    { setBH(l.C2S, c2s); setBH(l.S2C, s2c) }
+func (l *Link) SetLatency(d time.Duration) { setLat(l.C2S, d); setLat(l.S2C, d) }
+
+// CutAfterDrain is CutAfter with the bytes that got through still readable: the reading end drains them and then sees the end of the
+// stream (as when the peer's kernel, or a proxy, closes in the middle of a transfer), the opposite direction is reset.
+func (l *Link) CutAfterDrain(c2s bool, n int64) {
+	h, other := l.S2C, l.C2S
+	if c2s {
+		h, other = l.C2S, l.S2C
+	}
+	h.mu.Lock()
+	h.cutAt = n
+	h.onCut = func() { l.cutFired.Store(true); h.closeWrite(); other.doReset() }
+	h.mu.Unlock()
+}
+
+func (l *Link) CutAfter(c2s bool, n int64) {
+	h := l.S2C
+	if c2s {
+		h = l.C2S
+	}
+	h.mu.Lock()
+	h.cutAt = n
+	h.onCut = l.Cut
+	h.mu.Unlock()
+}
+func setBH(h *half, v bool)           { h.mu.Lock(); h.blackout = v; h.mu.Unlock() }
+func setLat(h *half, d time.Duration) { h.mu.Lock(); h.latency = d; h.mu.Unlock() }
 
 func (c *Conn) Read(p []byte) (int, error)  { return c.in.read(p) }
 func (c *Conn) Write(p []byte) (int, error) { return c.out.write(p) }
@@ -266,14 +293,14 @@ func (c *Conn) SetWriteDeadline(t time.Time) error { return nil } // writes neve
 
 // Net is a listener plus a dialer.
 type Net struct {
-	mu      sync.Mutex
-	ch      chan net.Conn
-	closed  chan struct{}
-	once    sync.Once
-	links   []*Link
-	OnDial  func(l *Link) error // fault plan hook: configure or refuse a new link
+	mu           sync.Mutex
+	ch           chan net.Conn
+	closed       chan struct{}
+	once         sync.Once
+	links        []*Link
+	OnDial       func(l *Link) error // fault plan hook: configure or refuse a new link
 	OnFirstWrite func(l *Link, data []byte)
-	refuse  bool
+	refuse       bool
 }
 
 func New() *Net { return &Net{ch: make(chan net.Conn), closed: make(chan struct{})} }
@@ -289,7 +316,11 @@ func (n *Net) Accept() (net.Conn, error) {
 func (n *Net) Close() error   { n.once.Do(func() { close(n.closed) }); return nil }
 func (n *Net) Addr() net.Addr { return addr("server") }
 
-func (n *Net) Links() []*Link { n.mu.Lock(); defer n.mu.Unlock(); return append([]*Link(nil), n.links...) }
+func (n *Net) Links() []*Link {
+	n.mu.Lock()
+	defer n.mu.Unlock()
+	return append([]*Link(nil), n.links...)
+}
 
 // SetOnDial / SetOnFirstWrite install the fault-plan hooks (read by Dial under the same lock).
 func (n *Net) SetOnDial(f func(l *Link) error) { n.mu.Lock(); n.OnDial = f; n.mu.Unlock() }
@@ -341,6 +372,31 @@ func (n *Net) Dial(ctx context.Context, network, address string) (net.Conn, erro
 	case <-ctx.Done():
 		return nil, ctx.Err()
 	}
+}
+
+// WasCut reports whether the link has been cut by a fault (Cut, CutAll or an armed CutAfter), as opposed to closed by an endpoint.
+func (l *Link) WasCut() bool { return l.cutFired.Load() }
+
+// Consumed returns how many bytes the reading end has actually read in the given direction.
+func (l *Link) Consumed(c2s bool) int64 {
+	h := l.S2C
+	if c2s {
+		h = l.C2S
+	}
+	h.mu.Lock()
+	defer h.mu.Unlock()
+	return h.consumed
+}
+
+// LastWritten returns how many bytes have been written so far in the given direction (what CutAfter counts).
+func (l *Link) LastWritten(c2s bool) (time.Time, int64) {
+	h := l.S2C
+	if c2s {
+		h = l.C2S
+	}
+	h.mu.Lock()
+	defer h.mu.Unlock()
+	return h.lastDelivered, h.total
 }
 
 // LastDelivered returns the instant at which bytes were last delivered in the given direction (zero if never) and how many so far.
